@@ -20,12 +20,12 @@ Local Open Scope string_scope.
 
 Definition reload (S : schema) (t : ty) (v : value) : value := erase S t v.
 
-Definition allowed_erased : list (string * string) :=
-  [ ("AnnotationStore", "changed"); ("TextResource", "changed"); ("AnnotationDataSet", "changed");
-    ("Config", "serialize_mode") ].
+Definition allowed_erased : list (ident * ident) := Eval vm_compute in
+  [ (i_ "AnnotationStore", i_ "changed"); (i_ "TextResource", i_ "changed");
+    (i_ "AnnotationDataSet", i_ "changed"); (i_ "Config", i_ "serialize_mode") ].
 
-Definition pair_eqb (a b : string * string) : bool :=
-  String.eqb (fst a) (fst b) && String.eqb (snd a) (snd b).
+Definition pair_eqb (a b : ident * ident) : bool :=
+  ident_eqb (fst a) (fst b) && ident_eqb (snd a) (snd b).
 
 Definition only_allowed_erased (S : schema) : bool :=
   forallb (fun e => existsb (pair_eqb e) allowed_erased) (erased_fields S).
